@@ -126,7 +126,7 @@ void BinaryFileReader::read_topo_chunk(Decoder &reader)
 
     ValenceVec valences;
 
-    uint64_t total_handles = header.valence * header.span.count;
+    uint64_t total_handles = static_cast<uint64_t>(header.valence) * header.span.count;
 
     if (header.valence == 0)
     {
@@ -371,7 +371,7 @@ read_vertices_chunk(Decoder &reader)
     if (!validate_span(file_header_.n_verts, n_verts_read_, header.span))
         return;
 
-    auto pos_size = elem_size(header.vertex_encoding) * file_header_.vertex_dim;
+    uint64_t pos_size = elem_size(header.vertex_encoding) * file_header_.vertex_dim;
     if (reader.remaining_bytes() != header.span.count  * pos_size) {
 #if 0
         std::cerr << "vert chunk size" << std::endl;
